@@ -253,6 +253,8 @@ type c19Case struct {
 	Got  string `json:"got"`
 	Why  string `json:"why"`
 	Args []int64 `json:"args,omitempty"` // range cases: the argument list, for the Coq model
+	Model  string `json:"model_in,omitempty"` // conversion cases: the input of model entry c19b
+	Sorted bool   `json:"sorted,omitempty"`   // project the result with its elements sorted (keys)
 }
 
 func projAny(x interface{}) string {
@@ -479,7 +481,7 @@ func c19Child(casesFile, outFile string, start int) error {
 	e := core.Import(env.NewEnv())
 	for i := start; i < len(cases); i++ {
 		done := make(chan string, 1)
-		go func(src string) {
+		go func(src string, sorted bool) {
 			defer func() {
 				if p := recover(); p != nil {
 					done <- "PANIC " + strings.ReplaceAll(fmt.Sprint(p), "\n", " ")
@@ -490,8 +492,12 @@ func c19Child(casesFile, outFile string, start int) error {
 				done <- "error"
 				return
 			}
+			if sorted {
+				done <- projSorted(v)
+				return
+			}
 			done <- projAny(v)
-		}(cases[i].Src)
+		}(cases[i].Src, cases[i].Sorted)
 		deadline := time.Now().Add(3 * time.Second)
 		res := ""
 		for res == "" {
@@ -540,6 +546,7 @@ func c19Main(seed uint64, n int, outDir, repo string) error {
 		limit = 0
 	}
 	cases := c19Builtins(limit, NewRand(seed, "c19"))
+	cases = append(cases, c19bCases(n, NewRand(seed, "c19b"))...)
 	cb, _ := json.Marshal(cases)
 	casesFile := filepath.Join(outDir, "cases.json")
 	resFile := filepath.Join(outDir, "results.txt")
